@@ -5,8 +5,8 @@ for d in /verif/seeded/C*; do
   n=$(basename $d)
   git -C /repo apply $d/patch.diff 2>/dev/null || { echo "$n: patch does not apply"; continue; }
   out=$(cd /verif && ./check $p --tier quick 2>&1); rc=$?
-  n=$(echo "$out" | grep -c "^VIOLATION"); nf=$(echo "$out" | grep -c "no-failing-input-found")
-  echo "$n ($p) rc=$rc violations=$n (no-failing-input-found: $nf)"
+  nv=$(echo "$out" | grep -c "^VIOLATION"); nf=$(echo "$out" | grep -c "no-failing-input-found")
+  echo "$n ($p) rc=$rc violations=$nv (no-failing-input-found: $nf)"
   git -C /repo checkout -- .
   git -C /repo clean -qfd src
 done
